@@ -4,6 +4,7 @@ CONSTANTS
   Variant = "current"
   MaxDefs = 6
   MaxGets = 6
+  InjLen = 3
   Emit = TRUE
-INVARIANTS StackEmptyWhenQuiet Precedence NoRecursion OnceBuilt LazyFactories
+INVARIANTS InjectConsistent StackEmptyWhenQuiet Precedence NoRecursion OnceBuilt LazyFactories
 CHECK_DEADLOCK FALSE
